@@ -4,5 +4,6 @@ CONSTANTS NClasses = 3
  Nla = {"none"}
  RunCode = FALSE
  ZeroK = FALSE
+ WithU = FALSE
 INVARIANT Emit
 CHECK_DEADLOCK FALSE
